@@ -235,6 +235,28 @@ def audit(ctx, extra_modules=()):
     return ok and not missing
 
 
+def coqchk(ctx):
+    """Thorough tier: re-check the property's compiled closure with the independent checker and compare the
+    axioms it reports with the allow-list."""
+    with Lock("coq"):
+        rc, out = run(["coqchk", "-o", "-silent", "-Q", COQ, "TC", "TC.Properties.%s" % ctx.pid], timeout=3000, cwd=COQ)
+    if rc != 0:
+        ctx.broken.append("coqchk rejected the compiled closure of Properties/%s.vo:\n%s" % (ctx.pid, "\n".join(out.splitlines()[-12:])))
+        return False
+    ax = []
+    m = re.search(r"\* Axioms:(.*?)(?:\n\* |\Z)", out, re.S)
+    if m and "<none>" not in m.group(1):
+        ax = [a.strip() for a in m.group(1).split("\n") if a.strip()]
+    short = [a.split(".")[-1] for a in ax]
+    allow_short = set(a.split(".")[-1] for a in AXIOM_ALLOW)
+    bad = [a for a, sh in zip(ax, short) if sh not in allow_short]
+    ctx.coverage["coqchk"] = {"ok": True, "axioms": ax}
+    if bad:
+        ctx.broken.append("coqchk: the compiled closure of Properties/%s.vo depends on axioms outside the allow-list: %s" % (ctx.pid, ", ".join(bad)))
+        return False
+    return True
+
+
 # ----------------------------------------------------------------------------- harness
 
 def cargo_env():
